@@ -211,3 +211,9 @@ def _e13(P):
 def _e14(P):
     E = _ed()
     return E.f_mul(sym.IV(E.L), E.f_mul(sym.IV(8), P)) == E.c_O
+
+
+@lemma("ed_same_y", 2, True, "curve points with the same y have x' = x or x' = -x (mod Q)   [Lean: enc_injective_core]")
+def _e15(P, R):
+    E = _ed()
+    return z3.Implies(E.f_y(P) == E.f_y(R), z3.Or(E.f_x(P) == E.f_x(R), E.f_x(P) == (E.Q - E.f_x(R)) % E.Q))
